@@ -27,16 +27,62 @@ SNIPPETS = {
     "newfn": "new Function('return g')()",
     "read": "g",
     "reenter": "__re(%d); __ptr()",
+    # re-declaration of a name that may exist already (family R)
+    "redecl": "var g;",
+    "redecl_f": "var f;",
+    "redecl_or": "var g = g || %d",
+    "redecl_dead": "if (false) { var g = %d }",
+    "redecl_ieval": "(1,eval)('var g;')",
+    "redecl_newfn": "new Function('var g; return g')()",
+    "redecl_newfn_init": "new Function('var g = %d; return g')()",
+    "redecl_throw": "var g; throw new Error('boom')",
 }
+# family I: the target (an object expression and a property name) comes with the history
+INV_SNIPPETS = {
+    "inv_mut": "%(obj)s.%(prop)s = %(x)d",
+    "inv_del": "delete %(obj)s.%(prop)s",
+    "inv_throw": "%(obj)s.%(prop)s = %(x)d; throw new Error('boom')",
+    "inv_ieval": "(1,eval)('%(obj)s.%(prop)s = %(x)d')",
+    "inv_loop": "%(obj)s.%(prop)s = %(x)d; while (true) {}",
+}
+MARKER = "zq"
+VIAS = ["self", "proto", "gpo", "inst", "mem", "pmem"]
+# literal roots (objects that are reachable without a global name): their prototype objects
+LITERAL_ROOTS = ["[]", "({})", "(function(){})", "(x => x)", "''", "(0)", "true", "/x/", "new Error('x')",
+                 "JSON.parse('{}')", "JSON.parse('[]')", "[].concat([])", "Object.keys({})", "'a'.split('')"]
+
+
+def target_of(rec):
+    """inventory record -> (object expression, property name).  Pure rendering."""
+    root, via = rec["root"], rec["via"]
+    if via == "self":
+        return root, MARKER
+    if via == "proto":
+        return root + ".prototype", MARKER
+    if via == "gpo":
+        return "Object.getPrototypeOf(%s)" % root, MARKER
+    if via == "inst":
+        return "Object.getPrototypeOf(new %s())" % root, MARKER
+    if via == "mem":
+        return root, rec["mem"]
+    if via == "pmem":
+        return root + ".prototype", rec["mem"]
+    raise ValueError(via)
+
+
+def read_expr(obj, prop):
+    """the marker as a small integer: a positive integer written by a history, 0 for anything else"""
+    return ("(function(v){ return (typeof v === 'number' && v === (v | 0) && v >= 1) ? v : 0 })(%s.%s)" % (obj, prop))
 
 # the probe is installed once per context (rendering it for every step costs 1.4 ms of parsing)
 PROBE_SRC = (
-    "function __p(){ var a = []; var o = {}; var e = new Error('x'); return ["
+    "function __p(){ var a = []; var o = {}; var e = new Error('x'); var dg = 1; var df = 1; "
+    "try { g } catch (x) { dg = 0 } try { f } catch (x) { df = 0 } return ["
     "typeof g === 'undefined' ? 0 : (typeof g === 'number' ? 1 : 9), typeof g === 'undefined' ? 0 : g, "
     "typeof f === 'undefined' ? 0 : (typeof f === 'function' ? 2 : 9), typeof f === 'function' ? f() : 0, "
-    "o.zo, Math.zm, a.za, String.zs, e.ze]; }"
+    "o.zo, Math.zm, a.za, String.zs, e.ze, dg, df]; }"
 )
-NPROBE = 9
+NPROBE = 11
 
 
 def cls(v):
@@ -59,7 +105,7 @@ def cls(v):
     return -1
 
 
-def probe(api, ctx, baseline, ptr):
+def probe(api, ctx, baseline, ptr, inv=False):
     gg = cls(ctx.get("g"))
     fg = cls(ctx.get("f"))
     out = api.run(lambda: ctx.eval("__p()"), tick=TICK, cap=20000, wall=60.0)
@@ -68,13 +114,17 @@ def probe(api, ctx, baseline, ptr):
     else:
         p = [-1] * NPROBE       # the context is not usable: a mismatch, judged by the specification
     extra = len([n for n in ctx._globals if n not in baseline and n not in ("g", "f")])
-    return [gg, p[0], p[1], fg, p[2], p[3]] + p[4:] + [ptr, extra]
+    q = 0
+    if inv:          # family I: the marker on the inventory target of this history, read through its access path
+        out = api.run(lambda: ctx.eval("__q()"), tick=TICK, cap=20000, wall=60.0)
+        q = cls(out["pv"]) if out["o"] == "value" else -1
+    return [gg, p[0], p[1], fg, p[2], p[3]] + p[4:9] + [ptr, extra] + p[9:11] + [q]
 
 
 _PROBE_FN = []
 
 
-def new_ctx(api, lim):
+def new_ctx(api, lim, target=None):
     """A fresh context with the probe installed.  The probe function is compiled once per child process and
     handed to every context with Context.set (a script function object carries no context state)."""
     ctx = api.Context(time_limit=lim["t"] * TICK, memory_limit=lim["m"])
@@ -85,20 +135,65 @@ def new_ctx(api, lim):
         chk = api.Context()
         chk.set("__p", fn)
         got = chk.eval("__p()")
-        if got != [0] * 4 + [None] * 5:
+        if got != [0] * 4 + [None] * 5 + [0, 0]:
             raise RuntimeError("probe function does not work when shared between contexts: %r" % (got,))
         _PROBE_FN.append(fn)
     ctx.set("__p", _PROBE_FN[0])
     # exposed callables for the re-entrant snippet: evaluate on the same context / report the current-VM pointer
     ctx.set("__re", lambda n: (ctx.eval("var g = %d" % int(n)), None)[1])
     ctx.set("__ptr", lambda: 0 if ctx._current_vm is None else 1)
+    if target is not None:
+        ctx.eval("function __q(){ return %s }" % read_expr(*target))
     return ctx, frozenset(ctx._globals)
+
+
+def discover(case, api):
+    """Family I, the inventory: every global name of a fresh context (and the literal roots) x every via, with
+    ok = 1 iff on a scratch context the path designates an object/function, the marker reads 0 there, a number
+    written to it reads back, and deleting it makes it read 0 again.  Raw facts; C12.tla decides what is a target."""
+    names = sorted(api.Context()._globals)
+    recs = []
+
+    def test(obj, prop):
+        s = api.Context(time_limit=1.0)
+        rd = read_expr(obj, prop)
+        src = ("var r = 0; var o = %s; if ((typeof o === 'object' || typeof o === 'function') && o !== null) { "
+               "if (%s === 0) { %s.%s = 7; if (%s === 7) { delete %s.%s; if (%s === 0) { r = 1 } } } } r"
+               % (obj, rd, obj, prop, rd, obj, prop, rd))
+        out = api.run(lambda: s.eval(src), wall=20.0, cap=200000)
+        return 1 if out["o"] == "value" and out["pv"] == 1 else 0      # an error: the path cannot be evaluated, not a target
+
+    def keys(obj):
+        s = api.Context(time_limit=1.0)
+        out = api.run(lambda: s.eval("var o = %s; ((typeof o === 'object' || typeof o === 'function') && o !== null) "
+                                     "? Object.keys(o) : []" % obj), wall=20.0, cap=200000)
+        ks = out["pv"] if out["o"] == "value" else []
+        return [k for k in ks if isinstance(k, str) and k.isidentifier() and k != "prototype"] if isinstance(ks, list) else []
+
+    for lit, roots in ((0, names), (1, LITERAL_ROOTS)):
+        for root in roots:
+            for via in (VIAS if lit == 0 else ["gpo"]):
+                if via in ("mem", "pmem"):
+                    holder = root if via == "mem" else root + ".prototype"
+                    for n, k in enumerate(keys(holder), start=1):
+                        rec = {"root": root, "lit": lit, "via": via, "mem": k, "ord": n}
+                        rec["ok"] = test(*target_of(rec))
+                        recs.append(rec)
+                else:
+                    rec = {"root": root, "lit": lit, "via": via, "mem": "", "ord": 0}
+                    rec["ok"] = test(*target_of(rec))
+                    recs.append(rec)
+    return {"id": case["id"], "inventory": recs}
 
 
 def replay(case, api):
     """case = {id, nc, limits: [{t, m}], h: [{c, k}]} -> {tid, nc, ev: [{c,k,x,o,r,pr}]}"""
     nc = case["nc"]
-    ctxs = [new_ctx(api, case["limits"][c]) for c in range(nc)]
+    tj, late = case.get("tj", 0), case.get("late", 0)
+    target = target_of(case["target"]) if tj else None
+    first = case["h"][0]["c"] - 1
+    # late: the contexts other than the first actor's are created after the first event has run
+    ctxs = [new_ctx(api, case["limits"][c], target) if (not late or c == first) else None for c in range(nc)]
     evs = []
     for n, e in enumerate(case["h"], start=1):
         c, k = e["c"], e["k"]
@@ -107,13 +202,17 @@ def replay(case, api):
             out = api.run(lambda: ctx.set("g", n), tick=TICK, cap=50000, wall=60.0)
         elif k == "get":
             out = api.run(lambda: ctx.get("g"), tick=TICK, cap=50000, wall=60.0)
+        elif k in INV_SNIPPETS:
+            src = INV_SNIPPETS[k] % {"obj": target[0], "prop": target[1], "x": n}
+            out = api.run(lambda: ctx.eval(src), tick=TICK, cap=50000, wall=60.0)
         else:
             t = SNIPPETS[k]
             src = t % n if "%d" in t else t
             out = api.run(lambda: ctx.eval(src), tick=TICK, cap=50000, wall=60.0)
         r = cls(out.get("pv")) if out["o"] == "value" else -1
         # the pointer of every context is read first: the probe itself evaluates, which would clear a stale pointer
+        ctxs = [cx if cx is not None else new_ctx(api, case["limits"][j], target) for j, cx in enumerate(ctxs)]
         ptrs = [1 if cx._current_vm is None else 0 for cx, _ in ctxs]
         evs.append({"c": c, "k": k, "x": n, "o": out["o"], "r": r,
-                    "pr": [probe(api, cx, base, p) for (cx, base), p in zip(ctxs, ptrs)]})
-    return {"id": case["id"], "tid": case["id"], "nc": nc, "ev": evs}
+                    "pr": [probe(api, cx, base, p, inv=bool(tj)) for (cx, base), p in zip(ctxs, ptrs)]})
+    return {"id": case["id"], "tid": case["id"], "nc": nc, "tj": tj, "ev": evs}
